@@ -832,6 +832,20 @@ func (tr *Trans) nameAt(name string) (ssa.Value, bool) {
 	return found, true
 }
 
+// localType: the type of a local variable of the function, from its debug references (nil if no such local).
+func (tr *Trans) localType(name string) types.Type {
+	for _, b := range tr.fn.Blocks {
+		for _, in := range b.Instrs {
+			if d, ok := in.(*ssa.DebugRef); ok && !d.IsAddr {
+				if id, ok := d.Expr.(*ast.Ident); ok && id.Name == name {
+					return d.X.Type()
+				}
+			}
+		}
+	}
+	return nil
+}
+
 // localDefs maps the source name of each local variable that is never merged by a phi to its SSA definitions.
 func (tr *Trans) localDefs() map[string][]ssa.Value {
 	if tr.locals != nil {
